@@ -169,7 +169,27 @@ func c07Run(c string) string {
 						}
 					}
 				}
-				return
+				// a client that is being restarted (a life-cycle edge point reached the manager's callback after the client
+				// had started: stop, then a new scan) still counts as running while its Stop is under way, and is gone for a
+				// moment after it: the state only counts as settled when it is the same again a little later
+				insts := func() string {
+					log.mu.Lock()
+					defer log.mu.Unlock()
+					var ks []string
+					for k, c := range log.current {
+						if c != nil {
+							ks = append(ks, fmt.Sprintf("%s=%d/%d", k, c.inst, log.running[k]))
+						}
+					}
+					sort.Strings(ks)
+					return strings.Join(ks, ",")
+				}
+				before := insts()
+				time.Sleep(120 * time.Millisecond)
+				if insts() == before && fmt.Sprint(c07Running(log)) == fmt.Sprint(got) {
+					return
+				}
+				continue
 			}
 			time.Sleep(2 * time.Millisecond)
 		}
